@@ -96,7 +96,7 @@ PROPS = {
 }
 
 
-ENGINE_PINS = ["PinChecks/PcEnforcer2Gen.v", "PinChecks/PcEnforceGen.v", "PinChecks/PcEnforcerGen.v", "PinChecks/PcBody_model.v", "PinChecks/PcStoreGen.v", "PinChecks/PcLinksGen.v", "PinChecks/PcInternalGen.v", "PinChecks/PcBody_adapters.v", "PinChecks/PcAdaptersGen.v", "PinChecks/PcBody_fmgmtapi.v", "PinChecks/PcApiGen.v", "PinChecks/PcQueryGen.v", "PinChecks/PcBody_frbacapi.v", "PinChecks/PcRoleGraph.v", "PinChecks/PcRoleManagerGen.v", "PinChecks/PcLiterals.v", "PinChecks/PcBody_fmacros.v"]
+ENGINE_PINS = ["PinChecks/PcEnforcer2Gen.v", "PinChecks/PcEnforceGen.v", "PinChecks/PcEnforcerGen.v", "PinChecks/PcBody_model.v", "PinChecks/PcStoreGen.v", "PinChecks/PcLinksGen.v", "PinChecks/PcInternalGen.v", "PinChecks/PcFsaveGen.v", "PinChecks/PcAdaptersGen.v", "PinChecks/PcBody_fmgmtapi.v", "PinChecks/PcApiGen.v", "PinChecks/PcQueryGen.v", "PinChecks/PcBody_frbacapi.v", "PinChecks/PcRoleGraph.v", "PinChecks/PcRoleManagerGen.v", "PinChecks/PcLiterals.v", "PinChecks/PcBody_fmacros.v"]
 ENGINE_NOTE = ("trusted: Coq kernel, extraction, harness; modelled not verified: hashlink LinkedHashSet/LinkedHashMap order (insert moves an existing entry "
                "to the back), petgraph adjacency order, rhai on the matcher fragment; adapters are modelled at the level of parsed lines (the CSV text level is "
                "C16/C09-text); every modelled function body is pinned by hash to the source it was aligned with")
@@ -104,7 +104,8 @@ ENGINE_NOTE = ("trusted: Coq kernel, extraction, harness; modelled not verified:
 PROPS.update({
     "C06": {
         "coq": "Properties/C06.v",
-        "pinchecks": ["PinChecks/PcEnforcer2Gen.v", "PinChecks/PcEnforceGen.v", "PinChecks/PcEnforcerGen.v", "PinChecks/PcBody_fmap.v", "PinChecks/PcStrFnGen.v", "PinChecks/PcLiterals.v", "PinChecks/PcEffector.v", "PinChecks/PcEffectorGen.v", "PinChecks/PcBody_fconvert.v",
+        "coq_extra": ["Properties/C06src.v"],
+        "pinchecks": ["PinChecks/PcEnforcer2Gen.v", "PinChecks/PcEnforceGen.v", "PinChecks/PcEnforcerGen.v", "PinChecks/PcFmapGen.v", "Gen/RegexSyntaxExamples.v", "PinChecks/PcStrFnGen.v", "PinChecks/PcLiterals.v", "PinChecks/PcEffector.v", "PinChecks/PcEffectorGen.v", "PinChecks/PcBody_fconvert.v",
                       "PinChecks/PcBody_fmacros.v", "PinChecks/PcRoleGraph.v", "PinChecks/PcRoleManagerGen.v"] + ["PinChecks/PcBody_ferror.v"],
         "gen": "c06",
         "partial": "never-hang / never-panic of the regex crate and of rhai is NOT a theorem: it is watchdog + catch_unwind evidence from the differential run; "
@@ -121,8 +122,8 @@ PROPS.update({
     },
     "C15": {
         "coq": "Properties/C15.v",
-        "coq_extra": ["Properties/RegexFmGen.v"],
-        "pinchecks": ["PinChecks/PcBody_fmap.v", "PinChecks/PcStrFnGen.v", "PinChecks/PcLiterals.v"],
+        "coq_extra": ["Properties/RegexFmGen.v", "Properties/FmapGen.v", "Properties/C15src.v"],
+        "pinchecks": ["PinChecks/PcFmapGen.v", "Gen/RegexSyntaxExamples.v", "PinChecks/PcStrFnGen.v", "PinChecks/PcLiterals.v"],
         "gen": "c15",
         "level_text": "Coq theorems: c15_key_match / c15_key_get* characterise keyMatch/keyGet for ALL byte strings; for every pattern of the documented grammar "
                       "(unbounded length) and EVERY key, the text-rewriting pipeline of keyMatch2/3/4/5, keyGet2/3 reads back as the compiled atom list "
@@ -136,7 +137,7 @@ PROPS.update({
     },
     "C10": {
         "coq": "Properties/C10.v",
-        "coq_extra": ["Properties/C10src.v"],
+        "coq_extra": ["Properties/C10src.v", "Properties/FsaveGen.v"],
         "pinchecks": ENGINE_PINS + ["PinChecks/PcBody_fadaptermod.v"],
         "gen": "c10",
         "partial": "durability below the system-call layer (fsync, page cache, power loss) is outside any executable model: c10_save_atomic is about the sequence "
@@ -170,7 +171,7 @@ PROPS.update({
     },
     "C09": {
         "coq": "Properties/C09.v",
-        "coq_extra": ["Properties/C09text.v", "Properties/C16q.v"],
+        "coq_extra": ["Properties/C09text.v", "Properties/C16q.v", "Properties/C09src.v"],
         "pinchecks": ENGINE_PINS + ["PinChecks/PcIniGen.v", "PinChecks/PcRegexGen.v", "Gen/RegexExamples.v", "PinChecks/PcRegexFmGen.v", "PinChecks/PcStrFnGen.v"],
         "gen": "c09",
         "level_text": "Coq theorems: AdapterSync (MemoryAdapter lines = in-memory policy, rule for rule, same order) holds after construction and is preserved by "
@@ -274,7 +275,7 @@ PROPS.update({
     },
     "C13": {
         "coq": "Properties/C13.v",
-        "coq_extra": ["Properties/QueryGen.v"],
+        "coq_extra": ["Properties/QueryGen.v", "Properties/SrcAsk.v", "Properties/C13src.v"],
         "pinchecks": ENGINE_PINS,
         "gen": "c13",
         "level_text": "Coq theorems in RBAC scope (plain and domain variant): implicit roles = transitive closure (fuel adequacy proved), implicit permissions = rules "
@@ -327,7 +328,7 @@ PROPS.update({
 PROPS.update({
     "C20": {
         "coq": "Properties/C20.v",
-        "pinchecks": ["PinChecks/PcLocks.v", "PinChecks/PcBody_fmap.v", "PinChecks/PcStrFnGen.v", "PinChecks/PcRegexFmGen.v", "PinChecks/PcBody_fmacros.v", "PinChecks/PcBody_frbacapi.v", "PinChecks/PcEnforcer2Gen.v", "PinChecks/PcEnforceGen.v", "PinChecks/PcEnforcerGen.v", "PinChecks/PcBody_fcachedenforcer.v", "PinChecks/PcCachedGen.v"] + ["PinChecks/PcBody_fdefaultcache.v", "PinChecks/PcCached.v", "PinChecks/PcRoleGraph.v", "PinChecks/PcRoleManagerGen.v"],
+        "pinchecks": ["PinChecks/PcLocks.v", "PinChecks/PcFmapGen.v", "Gen/RegexSyntaxExamples.v", "PinChecks/PcStrFnGen.v", "PinChecks/PcRegexFmGen.v", "PinChecks/PcBody_fmacros.v", "PinChecks/PcBody_frbacapi.v", "PinChecks/PcEnforcer2Gen.v", "PinChecks/PcEnforceGen.v", "PinChecks/PcEnforcerGen.v", "PinChecks/PcBody_fcachedenforcer.v", "PinChecks/PcCachedGen.v"] + ["PinChecks/PcBody_fdefaultcache.v", "PinChecks/PcCached.v", "PinChecks/PcRoleGraph.v", "PinChecks/PcRoleManagerGen.v"],
         "gen": "c20",
         "partial": "PARTIAL by nature: the theorems are about an abstract small-step semantics of two writer-preferring, non-re-entrant read-write locks and the "
                    "thread programs the code follows; that rustc / parking_lot / mini-moka / rhai implement those semantics (memory model, fairness, Send/Sync "
@@ -348,8 +349,8 @@ PROPS.update({
 PROPS.update({
     "C16": {
         "coq": "Properties/C16.v",
-        "coq_extra": ["Properties/C16q.v", "Properties/C09text.v", "Properties/C16e.v", "Properties/RegexGen.v", "Properties/IniGen.v"],
-        "pinchecks": ["PinChecks/PcIniGen.v", "PinChecks/PcRegexGen.v", "Gen/RegexExamples.v", "PinChecks/PcRegexFmGen.v", "PinChecks/PcStrFnGen.v", "PinChecks/PcBody_model.v", "PinChecks/PcStoreGen.v", "PinChecks/PcLinksGen.v", "PinChecks/PcBody_adapters.v", "PinChecks/PcAdaptersGen.v", "PinChecks/PcLiterals.v"] + ["PinChecks/PcBody_ffrontend.v"],
+        "coq_extra": ["Properties/C16q.v", "Properties/C09text.v", "Properties/C16e.v", "Properties/RegexGen.v", "Properties/IniGen.v", "Properties/C16src.v"],
+        "pinchecks": ["PinChecks/PcIniGen.v", "PinChecks/PcRegexGen.v", "Gen/RegexExamples.v", "PinChecks/PcRegexFmGen.v", "PinChecks/PcStrFnGen.v", "PinChecks/PcBody_model.v", "PinChecks/PcStoreGen.v", "PinChecks/PcLinksGen.v", "PinChecks/PcFsaveGen.v", "PinChecks/PcAdaptersGen.v", "PinChecks/PcLiterals.v"] + ["PinChecks/PcBody_ffrontend.v"],
         "gen": "c16",
         "level_text": "Coq theorems at BYTE level over Model/Csv.v and Model/Ini.v (validated against the real functions through the cfg(casbin_verif) hooks): "
                       "c16_parse_render_row (every csv-safe row under every spacing/quoting layout parses back, scanner fuel proved adequate), file level with "
